@@ -102,7 +102,9 @@ def adjOf (st : St) (dir : String) : Option (Nat → List (Nat × Nat)) :=
   else if dir == "tr" then some (inAdj st.s)
   else none
 
-def parseKind : String → Option Kind
+/-- `kind~n` names the n-th order of the builder's configuration calls in the harness; the model has no builder -/
+def parseKind (k : String) : Option Kind :=
+  match (k.splitOn "~").headD "" with
   | "bfs" => some .bfs | "dfs" => some .dfs | "pfs-min" => some .pfsMin | "pfs-max" => some .pfsMax
   | _ => none
 
@@ -632,6 +634,18 @@ def scriptOp (st : St) (op : String × Nat × Nat × Nat) : St :=
     match searchPath (if st.directed then outAdj st.s else unAdj st.s) (fun _ _ _ => true) (nodeVal st) .bfs a (some b) false (st.keys.length + 2) with
     | some (some p, _) => push st s!"len={p.length}"
     | some (none, _) => push st "none"
+    | none => push st "out-of-fuel"
+  | "sd" | "sp" | "st" =>
+    -- another traversal started from inside a running one: dfs, pfs-min, transposed dfs (undirected: plain dfs)
+    let adj := if !st.directed then unAdj st.s else if k == "st" then inAdj st.s else outAdj st.s
+    let kd : Kind := if k == "sp" then .pfsMin else .dfs
+    match searchPath adj (fun _ _ _ => true) (nodeVal st) kd a (some b) false (st.keys.length + 2) with
+    | some (some p, _) => push st s!"len={p.length}"
+    | some (none, _) => push st "none"
+    | none => push st "out-of-fuel"
+  | "so" =>
+    match orderNodes (if st.directed then outAdj st.s else unAdj st.s) (fun _ _ _ => true) false a (st.keys.length + 2) with
+    | some (ns, _) => push st s!"len={ns.length}"
     | none => push st "out-of-fuel"
   | "gi" => let (g, r) := (getG st 0).insert a; push (setG st 0 g) (tf r)
   | "gr" => let (g, r) := (getG st 0).remove a; push (setG st 0 g) (if r then s!"Some({a})" else "None")
